@@ -720,3 +720,361 @@ Proof.
         -- apply count_bs_app_zero; [discriminate|exact Hcnt].
       * rewrite <- !app_assoc. rewrite Hstep, Htok. f_equal. rewrite <- !app_assoc. reflexivity.
 Qed.
+
+(* ========================================================================================== *)
+(* Part E.  Names in context: what may follow a name, tokens, and the state machine.           *)
+(* ========================================================================================== *)
+
+(* what follows a name in the layouts: a space, a newline, or CR LF;
+   [term T r nl]: T starts with such a terminator, r is what comes after it *)
+Inductive term : bytes -> bytes -> bool -> Prop :=
+| term_sp r : term (32 :: r) r false
+| term_nl r : term (10 :: r) r true
+| term_crnl r : term (13 :: 10 :: r) r true.
+
+Lemma term_tok T r nl fn : term T r nl -> tokR T fn = Some (fn, r, nl).
+Proof.
+  intros H. destruct H as [r|r|r].
+  - rewrite (tokR_brk _ _ _ _ _ _ (step_sp r)), app_nil_r. reflexivity.
+  - rewrite (tokR_brk _ _ _ _ _ _ (step_nl r)), app_nil_r. reflexivity.
+  - rewrite (tokR_brk _ _ _ _ _ _ (step_crnl r)), app_nil_r. reflexivity.
+Qed.
+
+Lemma term_nonnil T r nl : term T r nl -> T <> [].
+Proof. intros H; destruct H; discriminate. Qed.
+
+(* an even run of trailing backslashes stays in the name, whatever the terminator *)
+Lemma tok_end j T r nl fn : Nat.even j = true -> term T r nl ->
+  tokR (bsN j ++ T) fn = Some (fn ++ bsN j, r, nl).
+Proof.
+  intros He Ht. destruct j as [|[|j]].
+  - cbn [bsN repeat app]. rewrite app_nil_r. apply term_tok. exact Ht.
+  - discriminate.
+  - destruct Ht as [r|r|r].
+    + destruct (step_bs_space_even (S j) r He) as [lk Hs].
+      rewrite (tokR_brk _ _ _ _ _ _ Hs), skipn_run_S. reflexivity.
+    + destruct (step_bs_eol j 10 r (or_introl eq_refl)) as [lk Hs].
+      rewrite (tokR_cont _ _ _ _ _ Hs), skipn_run. apply term_tok. constructor.
+    + destruct (step_bs_eol j 13 (10 :: r) (or_intror eq_refl)) as [lk Hs].
+      rewrite (tokR_cont _ _ _ _ _ Hs), skipn_run. apply term_tok. constructor.
+Qed.
+
+Lemma wf_gen_inv b x : wf_gen b x = true ->
+  x <> [] /\ forallb allowed x = true /\ ok_adj b x = true
+  /\ N.eqb (hd 0 (rev x)) 58 = false /\ Nat.even (count_bs (rev x)) = true.
+Proof.
+  unfold wf_gen. intros H.
+  apply andb_true_iff in H. destruct H as [H H5].
+  apply andb_true_iff in H. destruct H as [H H4].
+  apply andb_true_iff in H. destruct H as [H H3].
+  apply andb_true_iff in H. destruct H as [H1 H2].
+  repeat split; try assumption.
+  - intros ->. discriminate.
+  - apply negb_true_iff. exact H4.
+Qed.
+
+(* decomposition of a well-formed name reached by the scanner *)
+Lemma tok_name_wf b x rest fn : wf_gen b x = true ->
+  exists j body, x = body ++ bsN j /\ Nat.even j = true /\
+    tokR (enc_gen b x ++ rest) fn = tokR (bsN j ++ rest) (fn ++ body).
+Proof.
+  intros Hwf. destruct (wf_gen_inv b x Hwf) as (_ & Hall & Hadj & Hlast & Hev).
+  destruct (tok_name_body b x 0%nat fn rest Hall Hadj Hlast) as (j & body & Hx & Hcnt & Htok).
+  cbn [bsN repeat app] in Hx, Htok.
+  exists j, body. split; [exact Hx|]. split; [|exact Htok].
+  rewrite Hx, rev_app_distr, rev_bsN, count_bs_run_app, Hcnt, Nat.add_0_r in Hev. exact Hev.
+Qed.
+
+(* K1: a name followed by a terminator is one token *)
+Lemma tok_name_term b x T r nl : wf_gen b x = true -> term T r nl ->
+  tokR (enc_gen b x ++ T) [] = Some (x, r, nl).
+Proof.
+  intros Hwf Ht. destruct (tok_name_wf b x T [] Hwf) as (j & body & Hx & Hev & Htok).
+  rewrite Htok, (tok_end j T r nl _ Hev Ht). cbn [app]. rewrite <- Hx. reflexivity.
+Qed.
+
+(* K2: a name followed by ':' and a terminator *)
+Lemma tok_name_colon_term b x T r nl : wf_gen b x = true -> term T r nl ->
+  tokR (enc_gen b x ++ 58 :: T) [] = Some (x ++ [58], r, nl)
+  \/ (T = 13 :: 10 :: r /\ tokR (enc_gen b x ++ 58 :: T) [] = Some (x ++ [58], 10 :: r, false)).
+Proof.
+  intros Hwf Ht. destruct (tok_name_wf b x (58 :: T) [] Hwf) as (j & body & Hx & Hev & Htok).
+  rewrite Htok. cbn [app]. destruct j as [|j].
+  - left. cbn [bsN repeat app] in *. rewrite app_nil_r in Hx. subst body.
+    rewrite tokR_plain_one by reflexivity. apply term_tok. exact Ht.
+  - destruct Ht as [r|r|r].
+    + left. destruct (step_bs_colon_blank j 32 r eq_refl) as [lk Hs].
+      rewrite (tokR_brk _ _ _ _ _ _ Hs), skipn_run_SS, Hx, <- app_assoc. reflexivity.
+    + left. destruct (step_bs_colon_blank j 10 r eq_refl) as [lk Hs].
+      rewrite (tokR_brk _ _ _ _ _ _ Hs), skipn_run_SS, Hx, <- app_assoc. reflexivity.
+    + right. split; [reflexivity|]. destruct (step_bs_colon_blank j 13 (10 :: r) eq_refl) as [lk Hs].
+      rewrite (tokR_brk _ _ _ _ _ _ Hs), skipn_run_SS, Hx, <- app_assoc. reflexivity.
+Qed.
+
+(* ---------------------------------------------------------------------------------------- *)
+(* the state machine *)
+
+Definition newline (st : pstate) : pstate :=
+  mkP (p_outs st) (p_ins st) (p_have_target st) true false (p_is_empty st).
+
+Lemma absorb_nil st nl : absorb st [] nl = inr (if nl then newline st else st).
+Proof. destruct st, nl; reflexivity. Qed.
+
+Lemma absorb_split st fn nl :
+  absorb st fn nl =
+  match absorb st fn false with
+  | inl e => inl e
+  | inr st' => inr (if nl then newline st' else st')
+  end.
+Proof.
+  destruct st as [o i ht pt po em]. unfold absorb. cbn [p_outs p_ins p_have_target p_parsing_targets p_poisoned p_is_empty].
+  destruct (strip_colon fn) as [piece colon].
+  destruct (is_nil piece); [destruct nl; reflexivity|].
+  destruct (negb (mem_bytes piece i)).
+  - destruct (negb pt).
+    + destruct po; [reflexivity|destruct nl; reflexivity].
+    + destruct (mem_bytes piece o); destruct nl; reflexivity.
+  - destruct (negb pt); destruct nl; reflexivity.
+Qed.
+
+Lemma run_term T r nl st : term T r nl -> runR T st = runR r (if nl then newline st else st).
+Proof.
+  intros Ht. rewrite runR_eq by (eapply term_nonnil; exact Ht).
+  rewrite (term_tok _ _ _ _ Ht), absorb_nil. reflexivity.
+Qed.
+
+Lemma run_sp r st : runR (32 :: r) st = runR r st.
+Proof. apply (run_term _ _ _ st (term_sp r)). Qed.
+
+Lemma run_bs_nl r st : runR (92 :: 10 :: r) st = runR r st.
+Proof.
+  rewrite runR_eq by discriminate.
+  rewrite (tokR_brk _ _ _ _ _ _ (step_bs_nl r)). cbn [app skipn]. rewrite absorb_nil. reflexivity.
+Qed.
+
+Lemma run_bs_crnl r st : runR (92 :: 13 :: 10 :: r) st = runR r st.
+Proof.
+  rewrite runR_eq by discriminate.
+  rewrite (tokR_brk _ _ _ _ _ _ (step_bs_crnl r)). cbn [app skipn]. rewrite absorb_nil. reflexivity.
+Qed.
+
+(* K1': the name is consumed, its terminator is left to be scanned *)
+Lemma run_name b x T r nl st : wf_gen b x = true -> term T r nl ->
+  runR (enc_gen b x ++ T) st =
+  match absorb st x false with
+  | inl e => DErr e
+  | inr st' => runR T st'
+  end.
+Proof.
+  intros Hwf Ht. pose proof (term_nonnil _ _ _ Ht) as Hne.
+  rewrite runR_eq by (intros E; apply app_eq_nil in E; tauto).
+  rewrite (tok_name_term b x T r nl Hwf Ht), absorb_split.
+  destruct (absorb st x false) as [e|st']; [reflexivity|].
+  rewrite (run_term _ _ _ st' Ht). reflexivity.
+Qed.
+
+(* K2': the name and the colon are consumed *)
+Lemma run_name_colon b x T r nl st : wf_gen b x = true -> term T r nl ->
+  runR (enc_gen b x ++ 58 :: T) st =
+  match absorb st (x ++ [58]) false with
+  | inl e => DErr e
+  | inr st' => runR T st'
+  end.
+Proof.
+  intros Hwf Ht.
+  rewrite runR_eq by (intros E; apply app_eq_nil in E; destruct E; discriminate).
+  destruct (tok_name_colon_term b x T r nl Hwf Ht) as [Htok|[HT Htok]]; rewrite Htok.
+  - rewrite absorb_split. destruct (absorb st (x ++ [58]) false) as [e|st']; [reflexivity|].
+    rewrite (run_term _ _ _ st' Ht). reflexivity.
+  - destruct (absorb st (x ++ [58]) false) as [e|st']; [reflexivity|].
+    rewrite HT. rewrite (run_term _ _ _ st' (term_crnl r)), (run_term _ _ _ st' (term_nl r)).
+    reflexivity.
+Qed.
+
+Lemma strip_colon_wf b x : wf_gen b x = true -> strip_colon x = (x, false).
+Proof.
+  intros Hwf. destruct (wf_gen_inv b x Hwf) as (_ & _ & _ & Hlast & _).
+  unfold strip_colon. destruct (rev x) as [|c r] eqn:E.
+  - rewrite <- (rev_involutive x), E. reflexivity.
+  - cbn [hd] in Hlast. rewrite Hlast. reflexivity.
+Qed.
+
+Lemma strip_colon_snoc x : strip_colon (x ++ [58]) = (x, true).
+Proof.
+  unfold strip_colon. rewrite rev_app_distr. cbn [rev app].
+  change (N.eqb 58 58) with true. cbv iota. rewrite rev_involutive. reflexivity.
+Qed.
+
+Lemma wf_is_nil b x : wf_gen b x = true -> is_nil x = false.
+Proof. intros H. destruct x; [discriminate|reflexivity]. Qed.
+
+Definition tgt_outs (o i : list bytes) (x : bytes) : list bytes :=
+  if mem_bytes x i then o else if mem_bytes x o then o else o ++ [x].
+Definition tgt_po (i : list bytes) (po : bool) (x : bytes) : bool :=
+  if mem_bytes x i then true else po.
+
+Lemma absorb_target b x o i ht po em : wf_gen b x = true ->
+  absorb (mkP o i ht true po em) x false = inr (mkP (tgt_outs o i x) i ht true (tgt_po i po x) false).
+Proof.
+  intros Hwf. unfold absorb, tgt_outs, tgt_po. rewrite (strip_colon_wf b x Hwf), (wf_is_nil b x Hwf).
+  cbn [p_outs p_ins p_have_target p_parsing_targets p_poisoned p_is_empty negb].
+  destruct (mem_bytes x i); cbn [negb]; [reflexivity|].
+  destruct (mem_bytes x o); reflexivity.
+Qed.
+
+Lemma absorb_target_colon b x o i ht po em : wf_gen b x = true ->
+  absorb (mkP o i ht true po em) (x ++ [58]) false
+  = inr (mkP (tgt_outs o i x) i true false (tgt_po i po x) false).
+Proof.
+  intros Hwf. unfold absorb, tgt_outs, tgt_po. rewrite strip_colon_snoc, (wf_is_nil b x Hwf).
+  cbn [p_outs p_ins p_have_target p_parsing_targets p_poisoned p_is_empty negb].
+  destruct (mem_bytes x i); cbn [negb]; [reflexivity|].
+  destruct (mem_bytes x o); reflexivity.
+Qed.
+
+Lemma absorb_dep b x o i ht po em : wf_gen b x = true ->
+  absorb (mkP o i ht false po em) x false =
+  if mem_bytes x i then inr (mkP o i ht false po false)
+  else if po then inl ErrInputsHaveInputs
+  else inr (mkP o (i ++ [x]) ht false po false).
+Proof.
+  intros Hwf. unfold absorb. rewrite (strip_colon_wf b x Hwf), (wf_is_nil b x Hwf).
+  cbn [p_outs p_ins p_have_target p_parsing_targets p_poisoned p_is_empty negb].
+  destruct (mem_bytes x i); cbn [negb]; [reflexivity|].
+  destruct po; reflexivity.
+Qed.
+
+(* ========================================================================================== *)
+(* Part F.  A rendered rule, a rendered list of rules.                                         *)
+(* ========================================================================================== *)
+
+Definition wfP (b : bool) (x : bytes) : Prop := wf_gen b x = true.
+
+(* everything after the colon of a rule, followed by R *)
+Definition tailR (b : bool) (l : layout) (ds : list bytes) (R : bytes) : bytes :=
+  concat (map (fun d => dep_sep l ++ enc_gen b d) ds) ++ repeat 32 (lay_trail l) ++ eol l ++ R.
+
+Lemma render_tailR b l ts ds R :
+  render_gen b l ts ds ++ R = join_sp (map (enc_gen b) ts) ++ 58 :: tailR b l ds R.
+Proof. unfold render_gen, tailR. rewrite <- !app_assoc. reflexivity. Qed.
+
+Lemma join_sp_cons2 a c l : join_sp (a :: c :: l) = a ++ 32 :: join_sp (c :: l).
+Proof. reflexivity. Qed.
+
+Lemma join_sp_one a : join_sp [a] = a.
+Proof. cbn. apply app_nil_r. Qed.
+
+Lemma dep_sep_hd l : exists s', dep_sep l = 32 :: s'.
+Proof. unfold dep_sep. destruct (lay_cont l); eexists; reflexivity. Qed.
+
+Lemma run_dep_sep l r st : runR (dep_sep l ++ r) st = runR r st.
+Proof.
+  unfold dep_sep, eol. destruct (lay_cont l); destruct (lay_crlf l); cbn [app].
+  - rewrite run_sp, run_bs_crnl, run_sp. reflexivity.
+  - rewrite run_sp, run_bs_nl, run_sp. reflexivity.
+  - apply run_sp.
+  - apply run_sp.
+Qed.
+
+Lemma run_line_end l R st : runR (repeat 32 (lay_trail l) ++ eol l ++ R) st = runR R (newline st).
+Proof.
+  induction (lay_trail l) as [|t IH].
+  - cbn [repeat app]. unfold eol. destruct (lay_crlf l); cbn [app].
+    + apply (run_term _ _ _ st (term_crnl R)).
+    + apply (run_term _ _ _ st (term_nl R)).
+  - cbn [repeat app]. rewrite run_sp. exact IH.
+Qed.
+
+Lemma term_tailR b l ds R : exists r nl, term (tailR b l ds R) r nl.
+Proof.
+  unfold tailR. destruct ds as [|d ds'].
+  - cbn [map concat app]. destruct (lay_trail l) as [|t].
+    + cbn [repeat app]. unfold eol. destruct (lay_crlf l); cbn [app]; do 2 eexists; constructor.
+    + cbn [repeat app]. do 2 eexists. constructor.
+  - cbn [map concat]. destruct (dep_sep_hd l) as [s' ->]. cbn [app]. do 2 eexists. constructor.
+Qed.
+
+Lemma run_targets b T r nl : term T r nl ->
+  forall ts t o i ht po em, wfP b t -> Forall (wfP b) ts ->
+  runR (join_sp (map (enc_gen b) (t :: ts)) ++ 58 :: T) (mkP o i ht true po em) =
+  runR T (mkP (fst (targets_sem o i po (t :: ts))) i true false
+              (snd (targets_sem o i po (t :: ts))) false).
+Proof.
+  intros Ht. induction ts as [|t2 ts IH]; intros t o i ht po em Hwt Hwts.
+  - cbn [map]. rewrite join_sp_one.
+    rewrite (run_name_colon b t T r nl _ Hwt Ht), (absorb_target_colon b t _ _ _ _ _ Hwt).
+    unfold tgt_outs, tgt_po. cbn [targets_sem].
+    destruct (mem_bytes t i); [reflexivity|]. destruct (mem_bytes t o); reflexivity.
+  - inversion Hwts as [|? ? Hwt2 Hwts']; subst.
+    cbn [map]. rewrite join_sp_cons2, <- app_assoc. cbn [app].
+    rewrite (run_name b t _ _ _ _ Hwt (term_sp _)), (absorb_target b t _ _ _ _ _ Hwt), run_sp.
+    change (enc_gen b t2 :: map (enc_gen b) ts) with (map (enc_gen b) (t2 :: ts)).
+    rewrite (IH t2 _ _ _ _ _ Hwt2 Hwts').
+    unfold tgt_outs, tgt_po. cbn [targets_sem].
+    destruct (mem_bytes t i); [reflexivity|]. destruct (mem_bytes t o); reflexivity.
+Qed.
+
+Lemma run_deps b l R : forall ds o i po, Forall (wfP b) ds ->
+  runR (tailR b l ds R) (mkP o i true false po false) =
+  match deps_sem i po ds with
+  | None => DErr ErrInputsHaveInputs
+  | Some i' => runR R (mkP o i' true true false false)
+  end.
+Proof.
+  induction ds as [|d ds IH]; intros o i po Hw.
+  - unfold tailR. cbn [map concat app deps_sem]. rewrite run_line_end. reflexivity.
+  - inversion Hw as [|? ? Hwd Hw']; subst.
+    assert (E : tailR b l (d :: ds) R = dep_sep l ++ enc_gen b d ++ tailR b l ds R).
+    { unfold tailR. cbn [map concat]. rewrite <- !app_assoc. reflexivity. }
+    rewrite E, run_dep_sep.
+    destruct (term_tailR b l ds R) as (r & nl & Ht).
+    rewrite (run_name b d _ _ _ _ Hwd Ht), (absorb_dep b d _ _ _ _ _ Hwd).
+    cbn [deps_sem]. destruct (mem_bytes d i); [apply IH; exact Hw'|].
+    destruct po; [reflexivity|apply IH; exact Hw'].
+Qed.
+
+Lemma run_rule b l ts ds R o i ht em :
+  ts <> [] -> Forall (wfP b) ts -> Forall (wfP b) ds ->
+  runR (render_gen b l ts ds ++ R) (mkP o i ht true false em) =
+  match deps_sem i (snd (targets_sem o i false ts)) ds with
+  | None => DErr ErrInputsHaveInputs
+  | Some i' => runR R (mkP (fst (targets_sem o i false ts)) i' true true false false)
+  end.
+Proof.
+  intros Hne Hwt Hwd. destruct ts as [|t ts]; [congruence|].
+  inversion Hwt as [|? ? Hwt1 Hwt']; subst.
+  rewrite render_tailR. destruct (term_tailR b l ds R) as (r & nl & Ht).
+  rewrite (run_targets b _ _ _ Ht ts t _ _ _ _ _ Hwt1 Hwt').
+  apply run_deps. exact Hwd.
+Qed.
+
+Lemma rules_sem_acc_cons o i r rs :
+  rules_sem_acc o i (r :: rs) =
+  match deps_sem i (snd (targets_sem o i false (fst r))) (snd r) with
+  | None => DErr ErrInputsHaveInputs
+  | Some i' => rules_sem_acc (fst (targets_sem o i false (fst r))) i' rs
+  end.
+Proof. cbn [rules_sem_acc]. destruct (targets_sem o i false (fst r)); reflexivity. Qed.
+
+Lemma run_rules b l : forall rules o i ht em,
+  Forall (wf_rule b) rules -> ht = true \/ em = true ->
+  runR (render_rules_gen b l rules) (mkP o i ht true false em) = rules_sem_acc o i rules.
+Proof.
+  induction rules as [|r rs IH]; intros o i ht em Hw Hst.
+  - cbn. unfold finish. cbn [p_have_target p_is_empty p_outs p_ins].
+    destruct Hst; subst; [reflexivity|]. rewrite andb_false_r. reflexivity.
+  - inversion Hw as [|? ? Hr Hrs]; subst. destruct Hr as (Hne & Hwt & Hwd).
+    unfold render_rules_gen. cbn [map concat]. fold (render_rules_gen b l rs).
+    rewrite (run_rule b l _ _ _ _ _ _ _ Hne Hwt Hwd), rules_sem_acc_cons.
+    destruct (deps_sem i _ (snd r)); [|reflexivity].
+    apply IH; [exact Hrs|left; reflexivity].
+Qed.
+
+(* The master theorem: on the rendering (any layout, either colon convention) of well-formed
+   rules the parser computes the specification [rules_sem]. *)
+Theorem parse_render_rules_gen b l rules : Forall (wf_rule b) rules ->
+  parse_depfile (render_rules_gen b l rules) = rules_sem rules.
+Proof.
+  intros Hw. rewrite parse_depfile_runR. unfold p_init, rules_sem.
+  apply run_rules; [exact Hw|right; reflexivity].
+Qed.
